@@ -386,6 +386,7 @@ func main() {
 	}
 	if mon.Selected("small-fields") {
 		smallFields(c, w)
+		smallFields2(c, w)
 	}
 	w.recheck("at the end of the run")
 	c.Extra("gomaxprocs_rotation", w.procs)
